@@ -123,6 +123,12 @@ func verifStableOrder(orders []uint32) []int {
 	return out
 }
 
+// verifOrd: a symbolic order value in {0, 1, 2, MaxUint32} (two symbolic bits; 3 is mapped to the top of the range arithmetically)
+func verifOrd(name string) uint32 {
+	x := rt.U32n(name, 2)
+	return x + (x/3)*(4294967295-3)
+}
+
 func VerifC16() {
 	rt.SetClockMs(2000000000000)
 	NP, NR, NS := rt.Param("NP"), rt.Param("NR"), rt.Param("NS")
@@ -134,7 +140,7 @@ func VerifC16() {
 	var ss []*verifStat16
 	var po, co, so []uint32
 	for i := 0; i < NP; i++ {
-		s := &verifPrep16{verifS16{id: i, order: rt.U32n("pord", 2), log: log}}
+		s := &verifPrep16{verifS16{id: i, order: verifOrd("pord"), log: log}}
 		if panics && rt.Bool("ppanic") {
 			s.mode = 1
 		}
@@ -142,7 +148,7 @@ func VerifC16() {
 		sc.AddStatPrepareSlot(s)
 	}
 	for i := 0; i < NR; i++ {
-		s := &verifCheck16{verifS16{id: i, order: rt.U32n("cord", 2), log: log}}
+		s := &verifCheck16{verifS16{id: i, order: verifOrd("cord"), log: log}}
 		if panics {
 			s.mode = rt.Choice(6)
 		} else {
@@ -158,7 +164,7 @@ func VerifC16() {
 		sc.AddRuleCheckSlot(s)
 	}
 	for i := 0; i < NS; i++ {
-		s := &verifStat16{verifS16{id: i, order: rt.U32n("sord", 2), log: log}}
+		s := &verifStat16{verifS16{id: i, order: verifOrd("sord"), log: log}}
 		if panics && rt.Bool("spanic") {
 			s.mode = 1
 		}
